@@ -795,6 +795,10 @@ class BuildWorld(HistoryWorld):
             if k == 'ext':
                 ln = max(1, min(511, want - 11))
                 return dict(op, t='address', k='ext', n=ln, v=rng.getrandbits(ln))
+            if rng.random() < 0.4:
+                # anycast: 2 + 1 + 5 + depth + 8 + 256 bits; the filler brings the builder to exactly that room (or one bit less)
+                d = rng.choice([1, 2, 5, 29, 30, rng.randint(1, 30)])
+                return dict(op, t='address', k='std', wc=rng.randint(-128, 127), acc=bytes(rng.getrandbits(8) for _ in range(32)).hex(), any=[d, rng.getrandbits(d)], form='obj')
             return dict(op, t='address', k='std', wc=rng.randint(-128, 127), acc=bytes(rng.getrandbits(8) for _ in range(32)).hex(), any=None,
                         form=rng.choice(['obj', 'str']))
         if t == 'bit':
